@@ -137,8 +137,8 @@ def run_kani(crate, harnesses, cbmc_args=(), kani_args=(), jobs=None, harness_ti
     for r in data.get("verification_results", {}).get("results", []):
         hid = r["harness_id"]
         checks = r.get("checks", [])
-        failed = [c for c in checks if c["status"] in ("Failure", "Undetermined")
-                  and c["category"] != "cover"]
+        failed = [c for c in checks if c["status"] == "Failure" and c["category"] != "cover"]
+        undetermined = [c for c in checks if c["status"] == "Undetermined" and c["category"] != "cover"]
         covers = [c for c in checks if c["category"] == "cover"]
         reached = set()
         for c in checks:
@@ -150,6 +150,7 @@ def run_kani(crate, harnesses, cbmc_args=(), kani_args=(), jobs=None, harness_ti
             "duration_ms": r.get("duration_ms"),
             "n_checks": len([c for c in checks if c["category"] != "cover"]),
             "n_failed": len(failed),
+            "n_undetermined": len(undetermined),
             "failed": [{"desc": c["description"].strip('"'), "cat": c["category"],
                         "fn": c.get("function"), "loc": "%s:%s" % ((c.get("location") or {}).get("file"),
                                                                    (c.get("location") or {}).get("line"))}
